@@ -2,6 +2,7 @@ package main
 
 import (
 	"fmt"
+	"log/slog"
 	"math"
 	"sort"
 	"strconv"
@@ -35,6 +36,7 @@ type pipe struct {
 	m            *mapper.MetricMapper
 	ex           *exporter.Exporter
 	flags        int
+	logger       *slog.Logger
 	eventsAct    *prometheus.CounterVec
 	unmapped     prometheus.Counter
 	errStats     *prometheus.CounterVec
@@ -211,7 +213,12 @@ func newPipe(flags int, cache string, size int) *pipe {
 	p.samples = prometheus.NewCounter(prometheus.CounterOpts{Name: "sa"})
 	p.tagErrors = prometheus.NewCounter(prometheus.CounterOpts{Name: "te"})
 	p.tagsRecv = prometheus.NewCounter(prometheus.CounterOpts{Name: "tr"})
-	p.ex = exporter.NewExporter(p.reg, p.m, promslog.NewNopLogger(), p.eventsAct, p.unmapped, p.errStats, p.eventStats, p.conflict, p.metricsCount)
+	lg := promslog.NewNopLogger()
+	if (flags+size)%2 == 1 {
+		lg = debugLogger
+	}
+	p.logger = lg
+	p.ex = exporter.NewExporter(p.reg, p.m, lg, p.eventsAct, p.unmapped, p.errStats, p.eventStats, p.conflict, p.metricsCount)
 	return p
 }
 
@@ -221,7 +228,7 @@ func (p *pipe) input(l string) (res string) {
 			res = "I PANIC"
 		}
 	}()
-	evs := newParser(p.flags).LineToEvents(l, *p.sampleErrors, p.samples, p.tagErrors, p.tagsRecv, promslog.NewNopLogger())
+	evs := newParser(p.flags).LineToEvents(l, *p.sampleErrors, p.samples, p.tagErrors, p.tagsRecv, p.logger)
 	ch := make(chan event.Events, 1)
 	ch <- evs
 	close(ch)
